@@ -150,6 +150,7 @@ func init() {
 type loaded struct {
 	m   *mt.Matcher
 	err error
+	cfg string
 }
 
 func run(c *fw.Ctx) {
@@ -171,6 +172,7 @@ func run(c *fw.Ctx) {
 			judge(c, cache, &cs)
 		}
 		if len(cache) > 4000 {
+			prevLoaded = map[string]*loaded{}
 			for k, l := range cache {
 				if l.m != nil {
 					l.m.Close()
@@ -181,6 +183,8 @@ func run(c *fw.Ctx) {
 	}
 }
 
+var prevLoaded = map[string]*loaded{}
+
 func judge(c *fw.Ctx, cache map[string]*loaded, cs *Case) {
 	cs.InputHex = hex.EncodeToString(cs.Input)
 	if cs.Config == "" {
@@ -190,7 +194,7 @@ func judge(c *fw.Ctx, cache map[string]*loaded, cs *Case) {
 	l := cache[key]
 	if l == nil {
 		m, err := mt.Load(cs.Matcher, cs.Config)
-		l = &loaded{m: m, err: err}
+		l = &loaded{m: m, err: err, cfg: cs.Config}
 		cache[key] = l
 	}
 	if l.err != nil {
@@ -215,6 +219,28 @@ func judge(c *fw.Ctx, cache map[string]*loaded, cs *Case) {
 		}()
 		v, err = l.m.Eval(cs.Input, cs.opts())
 	}()
+	// companion law: another matcher of the same kind (the previous case's, usually with another configuration) looks
+	// at the connection first; the verdict of this one must be the same as on a fresh connection (routes commonly hold
+	// several matchers of one kind with different filters)
+	if pl := prevLoaded[cs.Matcher]; pl != nil && pl != l && pl.m != nil && v != "panic" {
+		var v2 mt.Verdict
+		func() {
+			defer func() {
+				if r := recover(); r != nil {
+					v2 = v
+				}
+			}()
+			cx, _ := mt.NewConn(cs.Input, cs.opts())
+			_, _ = pl.m.EvalOn(cx)
+			v2, _ = l.m.EvalOn(cx)
+		}()
+		c.Obs("companion_evaluations", 1)
+		if v2 != v {
+			c.Violation(fmt.Sprintf("C14 %s: verdict depends on another %s matcher having evaluated the connection first", cs.Matcher, cs.Matcher),
+				fmt.Sprintf("matcher %s with config %s on input %s: %s on a fresh connection, %s after a %s matcher with config %s had evaluated the same connection", cs.Matcher, cs.Config, trimHex(cs.InputHex), v, v2, cs.Matcher, pl.cfg), cs)
+		}
+	}
+	prevLoaded[cs.Matcher] = l
 	ok := (cs.Want && v == mt.Yes) || (!cs.Want && (v == mt.No || v == mt.Err || v == mt.More))
 	if v == "panic" {
 		// panics are C04's subject; here they only make the verdict undecidable
